@@ -423,6 +423,31 @@ impl Ctx<'_> {
                 self.fail("runtime", "float", op, &format!("{a:?}"), &format!("{b:?}"), &why);
             }
         }
+        // half-constant forms for floats (literal forms exist for finite values only)
+        if self.half {
+            let mut forms: Vec<(&str, String, f64)> = Vec::new();
+            if let Some(lb) = float_lit(b) {
+                forms.push(("const-rhs", format!("(a: float) -> {rt} {{ return a {op} {lb} }}"), a));
+            }
+            if let Some(la) = float_lit(a) {
+                forms.push(("const-lhs", format!("(b: float) -> {rt} {{ return {la} {op} b }}"), b));
+            }
+            for (side, text, arg) in forms {
+                let interp = Interpreter::without_stdlib();
+                self.rep.evaluations += 1;
+                self.rep.count("form_half_constant");
+                let out = match real::guarded(|| Code::parse(&interp, &text).map(|c| c.exec())) {
+                    Err(p) => Outcome::Panic(p),
+                    Ok(Err(e)) => Outcome::Rejected(real::error_variant(&e), real::parse_err_kind(&e)),
+                    Ok(Ok(Err(e))) => Outcome::ExecErr(real::exec_err_kind(&e), format!("{e:?}")),
+                    Ok(Ok(Ok(Variable::Function(f)))) => call(&f, vec![Variable::Float(arg)]),
+                    Ok(Ok(Ok(other))) => Outcome::Value(other),
+                };
+                if let Err(why) = judge(&exp, &out) {
+                    self.fail(&format!("half-{side}"), "float", op, &format!("{a:?}"), &format!("{b:?}"), &format!("{why} [{text}]"));
+                }
+            }
+        }
         if FLOAT_ASSIGN.contains(&op) {
             if let Some(f) = self.funcs.get(&format!("float as {op}"), || {
                 format!("(a: float, b: float) -> (float, float) {{ c := mut a; r := c {op}= b; return (r, *c) }}")
